@@ -188,6 +188,7 @@ type Ctx struct {
 	noInv      bool
 	invAdded   map[*ssa.Phi]bool
 	neq        [][2]lin.Form
+	lookups    []pendingLookup // lookups of constant tables awaiting a known key (constmap.go)
 }
 
 func (fi *FuncInfo) newCtx() *Ctx {
@@ -336,6 +337,10 @@ func (c *Ctx) lin1(v ssa.Value) lin.Form {
 	switch x := v.(type) {
 	case *ssa.BinOp:
 		return c.linBinOp(x)
+	case *ssa.Lookup:
+		o := c.opaque(v)
+		c.noteLookup(x, o)
+		return o
 	case *ssa.Convert:
 		if _, _, ok := isIntType(x.X.Type()); !ok {
 			return c.opaque(v)
@@ -811,6 +816,9 @@ func (c *Ctx) nilKnown(v ssa.Value, isNilV bool) {
 
 // ProveOrJoin tries to entail g; on failure tries the φ-join (fact 8).
 func (c *Ctx) Prove(g lin.Con) bool {
+	if len(c.lookups) > 0 {
+		c.resolveLookups()
+	}
 	if c.Entails(g) {
 		return true
 	}
